@@ -4,6 +4,7 @@ import (
 	"fmt"
 	"math"
 	"testing"
+	"time"
 
 	"github.com/peterstace/simplefeatures/geom"
 	"pgregory.net/rapid"
@@ -431,11 +432,12 @@ func c12Check(c C12Case, cx *h.Ctx) *h.Failure {
 
 func TestC12(t *testing.T) {
 	h.Run(t, h.Prop[C12Case]{
-		ID:          "C12",
-		Rule:        "three families: (fenv) triples of envelopes whose ordinates come from a small per-case pool of arbitrary finite floats (non-dyadic decimals, 1e15+fractions, 1e-300/subnormal, 1e300, signed zeros; derived edge-/corner-touching, identical and nested boxes): predicates, joins, Contains (pool points and their one-ulp neighbours), Min/Max/AsBox/AsGeometry/BoundingDiagonal compared exactly with float64 comparisons, Width/Height/Center/Area/Distance with the correctly rounded exact rational value (Distance only while the squared gaps neither overflow nor underflow); (env) pairs and triples of envelopes over the integer lattice {-2..2}^2 incl. point, horizontal, vertical and empty envelopes - all ordered pairs enumerated in both tiers, all triples in thorough and random triples in quick - with every method (Contains on all 49 points of {-3..3}^2 and non-finite points, Intersects, Covers, Distance, ExpandToInclude*, Center, Width/Height/Area, Min/Max/MinMaxXYs, AsGeometry, BoundingDiagonal, AsBox, IsPoint/IsLine/IsRectangle, TransformXY, NewEnvelope) against closed-interval arithmetic on integers, empty = identity of join and absorbing for predicates, join commutative/idempotent/associative; (geom) generated geometries of every type and coordinate type (arbitrary finite floats incl. subnormal/max, empty members, nesting, zero values; or valid integer shapes): Envelope() empty iff the geometry is, exactly the min/max over the control points (on Geometry, the concrete type and the Sequence), contains every control point, unchanged by Reverse/Force2D/ForceCoordinatesType/ForceCW/ForceCCW/member rotation, collection envelope = join of members, Envelope(Union(a,b)) within 1e-9 of the join. non-trivial = two distinct non-empty envelopes (env, fenv) / a non-empty geometry with members, an empty member or Z/M (geom)",
-		Assumptions: []string{"integer interval arithmetic in props/c12_test.go", "polygon envelopes are defined from the shell: generated polygons keep holes within the shell's bounds"},
-		Gen:         c12Gen,
-		Check:       c12Check,
-		Enumerate:   c12Enumerate,
+		ID:              "C12",
+		WholeCheckLimit: 300 * time.Second,
+		Rule:            "three families: (fenv) triples of envelopes whose ordinates come from a small per-case pool of arbitrary finite floats (non-dyadic decimals, 1e15+fractions, 1e-300/subnormal, 1e300, signed zeros; derived edge-/corner-touching, identical and nested boxes): predicates, joins, Contains (pool points and their one-ulp neighbours), Min/Max/AsBox/AsGeometry/BoundingDiagonal compared exactly with float64 comparisons, Width/Height/Center/Area/Distance with the correctly rounded exact rational value (Distance only while the squared gaps neither overflow nor underflow); (env) pairs and triples of envelopes over the integer lattice {-2..2}^2 incl. point, horizontal, vertical and empty envelopes - all ordered pairs enumerated in both tiers, all triples in thorough and random triples in quick - with every method (Contains on all 49 points of {-3..3}^2 and non-finite points, Intersects, Covers, Distance, ExpandToInclude*, Center, Width/Height/Area, Min/Max/MinMaxXYs, AsGeometry, BoundingDiagonal, AsBox, IsPoint/IsLine/IsRectangle, TransformXY, NewEnvelope) against closed-interval arithmetic on integers, empty = identity of join and absorbing for predicates, join commutative/idempotent/associative; (geom) generated geometries of every type and coordinate type (arbitrary finite floats incl. subnormal/max, empty members, nesting, zero values; or valid integer shapes): Envelope() empty iff the geometry is, exactly the min/max over the control points (on Geometry, the concrete type and the Sequence), contains every control point, unchanged by Reverse/Force2D/ForceCoordinatesType/ForceCW/ForceCCW/member rotation, collection envelope = join of members, Envelope(Union(a,b)) within 1e-9 of the join. non-trivial = two distinct non-empty envelopes (env, fenv) / a non-empty geometry with members, an empty member or Z/M (geom)",
+		Assumptions:     []string{"integer interval arithmetic in props/c12_test.go", "polygon envelopes are defined from the shell: generated polygons keep holes within the shell's bounds"},
+		Gen:             c12Gen,
+		Check:           c12Check,
+		Enumerate:       c12Enumerate,
 	})
 }
